@@ -248,6 +248,15 @@ def run(ctx: Ctx) -> None:
             ctx.drift.append({"script": r["script"], "cap": r["cap"], "world": r["world"], "mode": r["mode"],
                               "rejected_at": v["matched"], "event": ev[v["matched"]] if v["matched"] < len(ev) else None})
     ctx.extra["traces_total"] = len(traces)
+    import os as _os
+    if _os.environ.get("C29_DEBUG"):
+        with open(_os.environ["C29_DEBUG"], "w") as _f:
+            json.dump([{"script": r["script"], "cap": r["cap"], "world": r["world"], "mode": r["mode"], "obs": r["real"]["obs"],
+                        "inl": r["inline"]["obs"], "ev": r["real"]["ev"]} for r in runs if any(o["op"] == "NewSegment" for o in r["script"])], _f)
+    ctx.extra["histories_differing_from_inline"] = sum(r["real"]["obs"] != r["inline"]["obs"] for r in runs)
+    ctx.extra["histories_after_segment_change_with_shm_delivery"] = sum(
+        any(e.get("via") for e in r["real"]["ev"][[x["e"] for x in r["real"]["ev"]].index("NewSegment"):])
+        for r in runs if any(x["e"] == "NewSegment" for x in r["real"]["ev"]))
     ctx.extra["histories_by_feature"] = {
         "attach_static": sum(r["mode"] == "static" for r in runs), "attach_cached": sum(r["mode"] == "cached" for r in runs),
         "attach_percall": sum(r["mode"] == "percall" for r in runs),
